@@ -57,6 +57,11 @@ func init() {
 		if li.writer {
 			panic(fatalErr("all goroutines are asleep - deadlock! (RLock while holding the write lock)"))
 		}
+		if li.readers > 0 {
+			// sync.RWMutex prohibits recursive read locking: once a writer is queued between the
+			// two acquisitions, the second RLock waits for the writer and the writer for the first
+			fr.i.discipline("rlock-recursive", "C11: a read lock is taken again while this goroutine already holds it (recursive read locking deadlocks as soon as a writer is waiting)", fr)
+		}
 		li.readers++
 		fr.i.lockEvents++
 		fr.i.onAcquire(p)
